@@ -16,6 +16,8 @@ package main
 //   //@   loop "<for header text>" [#n]
 //   //@     invariant [label:] <expr>
 //   //@     decreases <expr>
+//   //@   guard [label:] <expr>           every effect (store to pre-existing memory, non-pure call, go, send)
+//                                         in the body is only reachable when <expr> (over the entry state) holds
 //   //@   cover [label:] <expr>
 //   //@ spec <name>(<params>) <type> = <expr>     (macro spec function)
 
@@ -63,6 +65,7 @@ type Contract struct {
 	Requires []Clause
 	Ensures  []Clause
 	Covers   []Clause
+	Guards   []Clause
 	Modifies []ast.Expr
 	ModText  []string
 	ModAll   bool
@@ -398,6 +401,16 @@ func (cs *ContractSet) LoadFile(path, defaultPkg string) {
 					continue
 				}
 				cur.Ensures = append(cur.Ensures, c)
+			case "guard":
+				c, err := parseClause(rest, src)
+				if err != nil {
+					fail(err)
+					continue
+				}
+				if c.Label == "" {
+					c.Label = fmt.Sprintf("guard%d", len(cur.Guards)+1)
+				}
+				cur.Guards = append(cur.Guards, c)
 			case "cover":
 				c, err := parseClause(rest, src)
 				if err != nil {
@@ -506,7 +519,7 @@ func splitTopComma(s string) ([]string, []byte) {
 
 func normHeader(s string) string {
 	s = strings.TrimSpace(s)
-	s = strings.TrimSuffix(s, "{")
+	s = strings.TrimSpace(strings.TrimSuffix(s, "{"))
 	return strings.Join(strings.Fields(s), " ")
 }
 
